@@ -47,6 +47,13 @@ func c07Positions(c *rt.C, err error, src map[string]string, entry string, class
 			name = *e.Pos.Filename
 		}
 		text, ours := src[name]
+		if name == "" && !ours && e.Pos.Start.Line < 0 {
+			// protocompile reports "no position" as line 0; the repository's reporter turns that into -1 with an
+			// empty file name: a linker diagnostic (e.g. an unused import of the generated file) without any
+			// position, counted like e.Pos == nil
+			c.Event("diagnostics_without_position")
+			continue
+		}
 		if name == "" && !ours {
 			// a position without a file name: it must at least lie inside one of the j5s sources
 			c.Event("diagnostics_without_file_name")
@@ -145,6 +152,8 @@ func c07Run(c *rt.C, src map[string]string, id string, wantAccept bool, class st
 					sig = "accept/random/" + errSig(err)
 				} else if class == "random-ruled" {
 					sig = "accept/ruled/" + errSig(err)
+				} else if class == "random-entity" || class == "random-api" {
+					sig = "accept/" + strings.TrimPrefix(class, "random-") + "/" + errSig(err)
 				}
 				d := det()
 				d["error"] = err.Error()
@@ -295,6 +304,22 @@ func runC07(r *rt.Runner) {
 			}
 			bundle := elemsBundle(&jElem{Decl: &jDecl{Kind: kObject, Name: "Ruled", Fields: fields}})
 			c07Run(c, bundle.sources(), fmt.Sprintf("ruled:%d", b), true, "random-ruled")
+		})
+	}
+	// --- entities (every key / shard / command / summary mix of C17's generator) and API-shaped bundles -------
+	for b := 0; b < r.Scale(200, 6000); b++ {
+		r.Do(fmt.Sprintf("entity/%d", b), func(c *rt.C) {
+			g := &j5Gen{rng: c.Rand()}
+			p := g.entityPlan("solo.v1", nil, g.rng.Intn(3), 1+g.rng.Intn(3))
+			bundle := &jBundle{Files: []*jFile{{Path: "solo/v1/entity.j5s", Pkg: "solo.v1", Elems: []*jElem{{Entity: p.E}}}}}
+			c07Run(c, bundle.sources(), fmt.Sprintf("entity:%d", b), true, "random-entity")
+		})
+	}
+	for b := 0; b < r.Scale(100, 3000); b++ {
+		r.Do(fmt.Sprintf("api/%d", b), func(c *rt.C) {
+			g := &j5Gen{rng: c.Rand()}
+			bundle, _ := g.apiBundle(b%3 != 0, b%2 == 0, g.rng.Intn(5))
+			c07Run(c, bundle.sources(), fmt.Sprintf("api:%d", b), true, "random-api")
 		})
 	}
 	// --- (ii) semantic errors ------------------------------------------------------------------------------------
